@@ -137,7 +137,7 @@ Print Assumptions C13_lossless_big_partial.
    the AV1 RTP specification (first element continues the pending OBU when Z, last element stays
    pending when Y), [glue] chains packets; [chain_ok] says Z of each packet equals Y of the previous
    one, the first Z is 0, every packet has >= 1 element, none empty, W <= 3, N only without Z. *)
-From RTP Require Import Proofs.C15_Av1 Proofs.C13_Stream Proofs.C13_PayStream Proofs.C13_Lossless.
+From RTP Require Import Spec.Av1Rtp Proofs.C15_Av1 Proofs.C13_Stream Proofs.C13_PayStream Proofs.C13_Lossless.
 
 (* decoder = specification, for any well-chained packet sequence whose glued elements are OBUs as
    transmitted (parsable header, size flag clear, no temporal delimiter / tile list): every call
